@@ -108,9 +108,9 @@ impl Writer {
             need,
             *cur + need
         );
-        *cur += need;
 
-        // Handle fsync based on schedule
+        // Handle fsync based on schedule (before the entry is published below, so that an
+        // append whose fsync fails stays invisible)
         match self.fsync_schedule {
             FsyncSchedule::SyncEach => {
                 // Immediate mmap flush, skip background flusher
@@ -130,6 +130,9 @@ impl Writer {
                 debug_print!("[writer] no fsync: col={}, block_id={}", self.col, block.id);
             }
         }
+
+        // Publish: readers see the entry once the offset covers it
+        *cur += need;
 
         Ok(())
     }
